@@ -100,6 +100,7 @@ def clone(t):
 def name_tree(rng, shape, fancy=False):
     """give names to a shape; returns immutable tuple tree"""
     lc = [0]; ic = [0]
+    oma = (not fancy) and rng.random() < 0.5          # OMA-style five-letter species codes
     def nm(prefix, k):
         base = '%s%d' % (prefix, k)
         if fancy and rng.random() < 0.4:
@@ -108,7 +109,7 @@ def name_tree(rng, shape, fancy=False):
     def rec(t):
         if not t[1]:
             lc[0] += 1
-            return (nm('L', lc[0]) if fancy else 'L%d' % lc[0], ())
+            return (nm('L', lc[0]) if fancy else ('SP%03d' % lc[0] if oma else 'L%d' % lc[0]), ())
         ic[0] += 1
         me = nm('I', ic[0]) if fancy else 'I%d' % ic[0]
         return (me, tuple(rec(k) for k in t[1]))
@@ -154,11 +155,14 @@ def gen_lineage(rng, T, p, ids, P):
         return ('g', ids.gene(), loft)
     while True:
         subs = []
+        only = rng.randrange(len(node[1])) if rng.random() < P.get('chainy', 0) else None
         for i in range(len(node[1])):
-            if rng.random() < P['loss']:
+            if only is not None and i != only:
+                continue
+            if only is None and rng.random() < P['loss']:
                 continue
             if rng.random() < P['dup']:
-                n = rng.choice([2, 2, 2, 3, 3, 4])
+                n = rng.choice([3, 3, 4, 4, 5]) if rng.random() < P.get('multi', 0) else rng.choice([2, 2, 2, 3, 3, 4])
                 P2 = dict(P); P2['dup'] = P['dup'] * 0.6
                 pgid = ('pg%d' % rng.randint(1, 99)) if rng.random() < 0.2 else None
                 subs.append(('dup', i, pgid, [gen_lineage(rng, T, p + (i,), ids, P2) for _ in range(n)]))
@@ -313,6 +317,49 @@ def recoverable_subs(p, subs):
                 return False
     return True
 
+def set_written(l):
+    """spell the group out (a group written by the generator keeps its id/label/annotations)"""
+    if l[0] == 'g' or l[1]:
+        return l
+    return ('grp', True, None, False, l[4])
+
+def repair(p, l):
+    """make a history recoverable by spelling out as few elided groups as needed (bottom-up)"""
+    if l[0] == 'g':
+        return l
+    _, w, hid, label, subs = l
+    new = []
+    for s in subs:
+        if s[0] == 'one':
+            new.append(('one', s[1], repair(p + (s[1],), s[2])))
+        elif s[0] == 'dup':
+            q = p + (s[1],)
+            cs = [repair(q, c) for c in s[3]]
+            cs = [repair(q, set_written(c)) if spill(q, c) else c for c in cs]
+            k = 0
+            while True:
+                taxa = []
+                for c in cs:
+                    taxa += app_taxa(q, c)
+                if rule_dup(taxa) == p or k >= len(cs):
+                    break
+                cs[k] = repair(q, set_written(cs[k])); k += 1
+            new.append(('dup', s[1], s[2], cs))
+        else:
+            new.append(s)
+    if not w and real_subs(new) != 1:
+        w = True
+    if w:
+        k = 0
+        while rule_level(app_taxa_subs(p, new), spill_subs(p, new)) != p and k < len(new):
+            s = new[k]
+            if s[0] == 'one':
+                new[k] = ('one', s[1], repair(p + (s[1],), set_written(s[2])))
+            elif s[0] == 'dup':
+                new[k] = ('dup', s[1], s[2], [repair(p + (s[1],), set_written(c)) for c in s[3]])
+            k += 1
+    return ('grp', w, hid if w else None, label if w else False, new)
+
 def genes_of(l):
     if l[0] == 'g':
         return [l[1]]
@@ -341,7 +388,7 @@ def gene_taxa(p, l):
 def stats_of(l, st=None, depth=0):
     """shape statistics of a history (for the evidence histogram and the non-triviality rule)"""
     if st is None:
-        st = dict(genes=0, groups=0, dups=0, elided=0, multicopy=0, deepdup=0, soledup=0, anns=0, maxdepth=0)
+        st = dict(genes=0, groups=0, dups=0, elided=0, multicopy=0, deepdup=0, soledup=0, anns=0, maxdepth=0, widedup=0)
     st['maxdepth'] = max(st['maxdepth'], depth)
     if l[0] == 'g':
         st['genes'] += 1
@@ -361,6 +408,8 @@ def stats_of(l, st=None, depth=0):
             st['dups'] += 1
             if len(s[3]) > 2:
                 st['multicopy'] += 1
+                if len(set(len(t) for c in s[3] for t in app_taxa((), c))) > 1 or any(c[0] == 'grp' and not c[1] for c in s[3]):
+                    st['widedup'] = st.get('widedup', 0) + 1
             if not w:
                 st['deepdup'] += 1
             for c in s[3]:
@@ -409,7 +458,7 @@ def make_dataset(rng, T=None, naming=None, nfam=None, P=None, maxleaves=8, int_i
         for _try in range(max_tries):
             save = (ids.n, ids.h)
             p = () if (top_positions == 'root' or rng.random() < 0.3) else rng.choice(internal)
-            l = force_written(gen_lineage(rng, T, p, ids, P))
+            l = repair(p, force_written(gen_lineage(rng, T, p, ids, P)))
             if recoverable(p, l):
                 break
             ids.n, ids.h = save
